@@ -39,10 +39,10 @@ def run(ctx):
 
     levels = [
         dict(name="shard", pkg="index", run="TestVerifC23$", files=["index/zz_verif_c23_test.go"],
-             n=ctx.n(320, 6000), case_type="c23case", fn="c23_mismatches", out="out-shard.jsonl"),
+             n=ctx.n(240, 6000), case_type="c23case", fn="c23_mismatches", out="out-shard.jsonl"),
         dict(name="sharded", pkg="search", run="TestVerifC23S$",
              files=["search/zz_verif_c23s_test.go", "search/zz_verif_shardgen_test.go"],
-             n=ctx.n(120, 2500), case_type="c23scase", fn="c23s_mismatches", out="out-sharded.jsonl"),
+             n=ctx.n(100, 2500), case_type="c23scase", fn="c23s_mismatches", out="out-sharded.jsonl"),
     ]
     allcases, evaluated, mism = [], 0, 0
     for lv in levels:
